@@ -1,4 +1,6 @@
 """Hypothesis strategies for histories (lists of operations understood by lockstep.Lockstep)."""
+import copy
+
 from hypothesis import strategies as st
 
 from . import gen
@@ -13,6 +15,10 @@ SELECT_KEYS = [
 
 def op_insert():
     return st.tuples(st.just("insert"), gen.points(), st.integers(0, 3), st.booleans() | st.just(True), st.sampled_from(["db", "db", "db_meas", "handle", "old_handle"]), st.booleans()).map(list)
+
+
+def op_insert_reuse():
+    return st.tuples(st.just("insert_reuse"), gen.points(), st.booleans()).map(list)
 
 
 def op_insert_stamped():
@@ -47,7 +53,13 @@ def op_remove_hit():
 
 
 def op_update_hit(fault=False):
-    return st.tuples(st.just("update_hit"), hit_spec(), gen.queries(2), hit_m(), update_args(fault), st.sampled_from(["db", "db", "handle", "old_handle"])).map(list)
+    args = update_args(fault)
+    if not fault:
+        # occasionally: the stored point's own instant, written in an IANA zone (for instants inside a DST fold Python's == between
+        # zones is never true, yet nothing changes)
+        same = st.sampled_from(["America/New_York", "Europe/London", "Australia/Lord_Howe"]).map(lambda z: {"time": ["hit_time_in_zone", z]})
+        args = st.one_of(args, args, args, args, args, args, args, same)
+    return st.tuples(st.just("update_hit"), hit_spec(), gen.queries(2), hit_m(), args, st.sampled_from(["db", "db", "handle", "old_handle"])).map(list)
 
 
 def op_drop():
@@ -194,6 +206,10 @@ def op_getters():
     return st.tuples(st.just("getters"), gen.meas_filter(), tk, st.sampled_from(gen.FKEYS + ["zz"]), st.sampled_from(VIAS_M)).map(list)
 
 
+def op_move():
+    return st.tuples(st.just("move"), hit_spec(), st.booleans(), st.sampled_from(["handle", "old_handle", "db"])).map(list)
+
+
 def op_reindex():
     return st.just(["reindex"])
 
@@ -208,10 +224,29 @@ PROFILES = {
     "remove": dict(clean_fault_update=1, bad_insert_multiple=1, insert=6, insert_multiple=3, remove=7, drop=2, remove_all=1, update=1, reindex=1, reopen=1, probe=5, getters=1),
     "update": dict(clean_fault_update=1, bad_insert_multiple=1, insert=6, insert_multiple=3, remove=1, drop=1, remove_all=1, update=8, reindex=1, reopen=1, probe=3, getters=1, bad_update=1),
     "index": dict(bad_insert=1, insert=6, insert_multiple=3, remove=3, drop=1, remove_all=1, update=2, fault_update=1, bad_insert_multiple=1, reindex=1, reopen=1, probe=2, getters=1),
-    "getters": dict(clean_fault_update=1, bad_insert_multiple=1, insert=6, insert_multiple=3, remove=2, drop=1, remove_all=1, update=2, reindex=1, reopen=1, probe=1, getters=8),
-    "handle": dict(clean_fault_update=1, bad_insert_multiple=1, insert=6, insert_multiple=3, remove=3, drop=2, remove_all=1, update=4, reindex=1, reopen=1, probe=5, getters=5),
+    "getters": dict(move=2, clean_fault_update=1, bad_insert_multiple=1, insert=6, insert_multiple=3, remove=2, drop=1, remove_all=1, update=2, reindex=1, reopen=1, probe=1, getters=8),
+    "handle": dict(move=3, clean_fault_update=1, bad_insert_multiple=1, insert=6, insert_multiple=3, remove=3, drop=2, remove_all=1, update=4, reindex=1, reopen=1, probe=5, getters=5),
     "raise": dict(insert=6, insert_multiple=2, remove=2, drop=1, remove_all=1, update=2, fault_update=5, bad_insert_multiple=4, bad_update=3, bad_insert=1, bad_read=1, reindex=1, reopen=1, probe=4, getters=1),
 }
+
+
+def sandwich(ops, flags):
+    """After a read that is directly followed by a write, repeat the identical read (when the flag for that position is 0)."""
+    out = []
+    pending = None
+    for i, op in enumerate(ops):
+        out.append(op)
+        if pending is not None and op[0] not in READ_OPS and op[0] not in ("reindex", "reopen"):
+            out.append(copy.deepcopy(pending))
+            pending = None
+        elif op[0] in ("getters", "probe") and flags[i % len(flags)] == 0:
+            pending = op
+        else:
+            pending = None
+    return out
+
+
+READ_OPS = ("probe", "probe_hit", "probe_twin", "getters", "bad_read")
 
 
 def history(profile, max_ops=30, min_ops=1):
@@ -219,11 +254,11 @@ def history(profile, max_ops=30, min_ops=1):
     table = {
         "insert": op_insert(), "insert_multiple": op_insert_multiple(), "remove": op_remove(), "drop": op_drop(), "remove_all": op_remove_all(),
         "update": op_update(), "fault_update": op_update(True), "bad_insert_multiple": op_insert_multiple(True), "bad_update": op_bad_update(),
-        "bad_insert": op_bad_insert(), "bad_read": op_bad_read(), "reindex": op_reindex(), "reopen": op_reopen(), "probe": op_probe(), "getters": op_getters(),
+        "bad_insert": op_bad_insert(), "bad_read": op_bad_read(), "reindex": op_reindex(), "reopen": op_reopen(), "probe": op_probe(), "getters": op_getters(), "move": op_move(),
     }
     # half of the query-carrying operations derive (part of) their query from a stored point, so that they hit
     table["probe"] = st.one_of(op_probe(), op_probe_hit(), op_probe_hit(), op_probe_twin())
-    table["insert"] = st.one_of(op_insert(), op_insert(), op_insert(), op_insert(), op_insert_stamped())
+    table["insert"] = st.one_of(op_insert(), op_insert(), op_insert(), op_insert(), op_insert(), op_insert(), op_insert_stamped(), op_insert_reuse())
     table["remove"] = st.one_of(op_remove(), op_remove_hit(), op_remove_hit())
     table["update"] = st.one_of(op_update(), op_update_hit(), op_update_hit())
     table["fault_update"] = st.one_of(op_update(True), op_update_hit(True), op_update_hit(True), op_update_primed_invalid())
@@ -233,6 +268,8 @@ def history(profile, max_ops=30, min_ops=1):
     # st.lists averages ~5 elements whatever max_size is, so longer histories are asked for explicitly
     mid = max(min_ops, max_ops // 3)
     body = st.one_of(st.lists(one, min_size=min_ops, max_size=mid), st.lists(one, min_size=mid, max_size=2 * mid), st.lists(one, min_size=2 * mid, max_size=max_ops))
+    # read - write - same read again: whatever a read memoises (per handle, per measurement, per index) has to notice the write
+    body = st.tuples(body, st.lists(st.integers(0, 2), min_size=1, max_size=8)).map(lambda t: sandwich(t[0], t[1]))
     # most histories start from a populated database, so that early queries, removals and updates have something to hit
     seeded = st.tuples(st.lists(gen.points(), min_size=3, max_size=10), st.sampled_from(["inorder", "asis"]), body).map(
         lambda t: [["insert_multiple", t[0], 0, t[1], "db", None, "m1"]] + t[2]
